@@ -119,10 +119,24 @@ CuesOk(cues, groups) ==
        IF g.raw # "" THEN (IF Head(cues).raw = g.raw THEN CuesOk(Tail(cues), Tail(groups)) ELSE "RawCueSettingsNotVerbatim")
        ELSE LET v == CueOk(Head(cues), g.l) IN IF v = "ok" THEN CuesOk(Tail(cues), Tail(groups)) ELSE v
 
+\* rec.groups lists the caption's text nodes; a run is a maximal stretch of equal layouts.  Nodes
+\* with different layouts must be separate cues; nodes whose own layouts differ but whose effective
+\* layouts are equal (text without a layout next to text carrying the caption's layout) may be one
+\* cue or two: runs by node layout and runs by effective layout are both accepted
+GKey(g, byNode) == IF byNode THEN <<g.nl, g.raw>> ELSE <<g.l, g.raw>>
+RECURSIVE Runs(_, _)
+Runs(gs, byNode) ==
+  IF Len(gs) <= 1 THEN gs
+  ELSE IF GKey(gs[1], byNode) = GKey(gs[2], byNode) THEN Runs(Tail(gs), byNode)
+  ELSE <<gs[1]>> \o Runs(Tail(gs), byNode)
+
 VerdictVtt(rec) ==
   IF ~rec.ok THEN "WriterFailed"
-  ELSE IF Len(rec.cues) # Len(rec.groups) THEN "NotOneCuePerLayoutGroup"
-  ELSE CuesOk(rec.cues, rec.groups)
+  ELSE LET fine == Runs(rec.groups, TRUE)
+           coarse == Runs(rec.groups, FALSE) IN
+       IF Len(rec.cues) = Len(fine) THEN CuesOk(rec.cues, fine)
+       ELSE IF Len(rec.cues) = Len(coarse) THEN CuesOk(rec.cues, coarse)
+       ELSE "NotOneCuePerLayoutGroup"
 
 VerdictPos(rec) == CASE rec.k = "dfxprt" -> VerdictRoundTrip(rec)
                      [] rec.k = "dfxprt_dev" -> VerdictRoundTripDev(rec)
